@@ -266,7 +266,7 @@ func baselineCmd() {
 					continue
 				}
 				switch o.Kind {
-				case "post", "panics", "atreturn", "atcall":
+				case "post", "panics", "atreturn", "atcall", "atalloc":
 					names = append(names, o.Name)
 				}
 			}
